@@ -42,7 +42,9 @@ def cases(tier, seed):
     cse = [with_sensors(d) for d in space.family_cse(tier) if len(d["state"]) == 2]
     defs.append(space.bind_def(5, 4, 3, order=1, sensors_shape=(3, 1), tag="-wide"))  # names x10 < x2, u10 < u2, K < c
     if tier == "quick":
-        defs = defs + ops[::3] + cse[::3]
+        special = [d for d in ops if any(t in d["name"] for t in ("atan-tan", "tan-atan", "log-exp", "sqrt-square", "div-by-", "inv-square",
+                                                                   "reciprocal")) and d not in ops[::3]]
+        defs = defs + ops[::3] + special + cse[::3]
     else:
         defs = defs + ops + cse
     # several different programs generated one after the other in ONE process, then each compiled and run: generation must
